@@ -6,7 +6,7 @@ if [ -n "$(git status --porcelain)" ]; then echo "/repo not clean"; exit 2; fi
 git apply "$patch" || { echo "patch does not apply"; exit 2; }
 mkdir -p /tmp/try-verif-$$; cp /verif/known_findings.json /tmp/try-verif-$$/
 for p in "$@"; do
-  (cd /verif && DFS_NO_EVIDENCE=1 ./bin/dfscheck -property $p -verif /tmp/try-verif-$$ 2>&1 | grep -v "^      via" | tail -12)
+  (cd /verif && DFS_NO_EVIDENCE=1 ${DFSBIN:-./bin/dfscheck} -property $p -verif /tmp/try-verif-$$ 2>&1 | grep -v "^      via" | tail -12)
 done
 git checkout -- . && git clean -fdq
 rm -rf /tmp/try-verif-$$
